@@ -81,7 +81,9 @@ def section_pairing(F):
     if not local_to_field:
         raise CheckError("parse_comp: Component literal not found")
     parse_tbl = {}
-    # each add_to_sections call: tag + enclosing arm's appended vector
+    # a *record call* is any call that is handed a ComponentSection variant (add_to_sections, a method of a log struct,
+    # a read-and-record helper...): tag = that variant; vectors = the IR vectors appended in the same arm or handed to
+    # the call by `&mut`; count = the integer argument (or, when the callee computes it, the callee's own record call)
     pm = None
     for m in walk(pc["body"]):
         if m.get("k") == "Match" and m.get("scrut_ty", "").split("<")[0] == "wasmparser::Payload":
@@ -89,31 +91,78 @@ def section_pairing(F):
     if pm is None:
         raise CheckError("parse_comp: no match on Payload")
 
+    def tag_of(c):
+        for a_ in c.get("args", []):
+            for x in walk(a_):
+                if x.get("k") == "Path" and x.get("res", {}).get("adt") == CS and x["res"].get("variant"):
+                    return x["res"]["variant"]
+        return None
+
+    def is_record(c):
+        return c.get("k") in ("Call", "MethodCall") and tag_of(c) is not None and not (c.get("callee") or "").startswith(("std::", "core::", "alloc::"))
+
     def arms_with_calls(node):
-        # innermost arms (payload arms or nested custom-section arms) containing an add_to_sections call
+        # innermost arms (payload arms or nested custom-section arms) containing a record call
         for mm in walk(node):
             if mm.get("k") == "Match":
                 for arm in mm["arms"]:
-                    calls = [c for c in walk(arm["body"]) if c.get("k") == "Call" and (c.get("callee") or "").endswith("::add_to_sections")]
-                    inner = [x for x in walk(arm["body"]) if x.get("k") == "Match" and any(
-                        c2.get("k") == "Call" and (c2.get("callee") or "").endswith("::add_to_sections") for a2 in x["arms"] for c2 in walk(a2["body"]))]
+                    calls = [c for c in walk(arm["body"]) if is_record(c)]
+                    inner = [x for x in walk(arm["body"]) if x.get("k") == "Match" and any(is_record(c2) for a2 in x["arms"] for c2 in walk(a2["body"]))]
                     if calls and not inner:
                         yield arm, calls
 
+    def int_arg(c):
+        for a_ in c.get("args", []):
+            if (a_.get("ty") or "") in ("u32", "usize", "u64", "i32") :
+                return peel(a_)
+        return None
+
+    def helper_count_ok(c):
+        """The record call hands the vector to a helper which appends and records: inside the helper, the record call
+        that forwards the helper's own section parameter must carry a non-literal count next to append/extend, or 1 next to push."""
+        from vlib.facts import lit_int
+        cal = c.get("inst") or c.get("callee") or ""
+        hs = [f for f in F.fns if f["path"].split("<")[0] == cal.split("<")[0] and f.get("body") is not None] or \
+             [f for f in F.fns if f.get("body") is not None and cal.endswith("::" + f["name"]) and "component" in f["path"]]
+        if len(hs) != 1:
+            return None, None
+        h = hs[0]
+        phids = {b_["hid"] for pm_ in h.get("params", []) for b_ in walk(pm_["pat"]) if b_.get("k") == "Binding"}
+        meths = {x["method"] for x in walk(h["body"]) if x.get("k") == "MethodCall" and x["method"] in ("append", "push", "extend")
+                 and peel(x["recv"]).get("k") == "Path" and peel(x["recv"])["res"].get("hid") in phids}
+        inner = [x for x in walk(h["body"]) if x.get("k") in ("Call", "MethodCall") and x is not h["body"]
+                 and any(peel(a_).get("k") == "Path" and peel(a_).get("res", {}).get("hid") in phids and CS in (a_.get("ty") or "") for a_ in x.get("args", []))]
+        cnts = [int_arg(x) for x in inner]
+        cnts = [x for x in cnts if x is not None]
+        if not meths or len(cnts) != 1:
+            return None, meths
+        cnt = cnts[0]
+        if meths == {"push"}:
+            return cnt.get("k") == "Lit" and lit_int(cnt["lit"]) == 1, meths
+        return cnt.get("k") != "Lit", meths
+
     for arm, calls in arms_with_calls(pm):
         for c in calls:
-            tag = None
-            for x in walk(c["args"][1]):
-                if x.get("k") == "Path" and x.get("res", {}).get("adt") == CS:
-                    tag = x["res"].get("variant")
-            cnt = peel(c["args"][3])
+            tag = tag_of(c)
+            cnt = int_arg(c)
             vecs = []
             for x in walk(arm["body"]):
                 if x.get("k") == "MethodCall" and x["method"] in ("append", "push", "extend"):
                     pp = place_path(x["recv"])
                     if pp and pp in local_to_field:
                         vecs.append((pp, x["method"]))
-            parse_tbl[tag] = (vecs, cnt, arm)
+            handed = []
+            for a_ in c.get("args", []):
+                pa = peel(a_)
+                if pa.get("k") == "Path" and pa.get("res", {}).get("name") in local_to_field and "Vec<" in (a_.get("ty") or pa.get("ty") or "") \
+                        and CS.split("::")[-1] not in (a_.get("ty") or pa.get("ty") or ""):
+                    handed.append(pa["res"]["name"])
+            hk = None
+            if handed and cnt is None:
+                hk, hm = helper_count_ok(c)
+                for v in handed:
+                    vecs.append((v, "helper:" + "/".join(sorted(hm or ["?"]))))
+            parse_tbl[tag] = (vecs, cnt, arm, hk)
     r.count("parse_tags", len(parse_tbl))
     enc_tbl = {}
     em = None
@@ -122,10 +171,27 @@ def section_pairing(F):
             em = m
     if em is None:
         raise CheckError("encode_comp: no match on ComponentSection")
+    inside = {id(x) for x in walk(em)}
+    outer_ints = {st["pat"]["hid"] for st in walk(ec["body"]) if st.get("k") == "Let" and id(st) not in inside and st["pat"].get("k") == "Binding"
+                  and (st["pat"].get("ty") or "") in ("u32", "usize", "u64", "i32") and "Mut" in (st["pat"].get("mode") or "")}
+    ir_fields = set(local_to_field.values())
+    # `num`: the integer bound together with the section tag by the pattern that feeds the match
+    num_hids = set()
+    sc = peel(em["scrut"]) if "scrut" in em else None
+    if sc is not None and sc.get("k") == "Path" and sc.get("res", {}).get("r") == "local":
+        from vlib.facts import binding_site
+        pat_, _scr, _k = binding_site(ec["body"], sc["res"]["hid"])
+        if pat_ is not None:
+            num_hids = {b["hid"] for b in walk(pat_) if b.get("k") == "Binding" and (b.get("ty") or "").lstrip("&") in ("u32", "usize", "u64")}
     for arm in em["arms"]:
         for leaf in pat_alternatives(arm["pat"]):
             if leaf.get("adt") == CS and leaf.get("variant"):
                 fields = set()
+                for x in walk(arm["body"]):
+                    # any read of an IR vector of the component (indexing, slicing, iterating): `self.<field>` outside assertions
+                    if x.get("k") == "Field" and peel(x["base"]).get("k") == "Path" and peel(x["base"])["res"].get("name") == "self" \
+                            and x["name"] in ir_fields and not any("assert" in e_ for e_ in (x.get("exp") or [])):
+                        fields.add(x["name"])
                 for x in walk(arm["body"]):
                     if x.get("k") == "Index":
                         pp = place_path(x["base"]) or ""
@@ -133,11 +199,12 @@ def section_pairing(F):
                             fields.add(pp.split(".")[1])
                     if x.get("k") == "MethodCall" and x["method"] in ("get_by_id", "get") and (place_path(x["recv"]) or "").startswith("self."):
                         fields.add((place_path(x["recv"]) or "").split(".")[1])
+                # cursors: integer locals that live across sections (declared outside the section match) and are written here
                 cursors = set()
                 for x in walk(arm["body"]):
-                    if x.get("k") == "AssignOp" and x["op"].startswith("+"):
+                    if x.get("k") in ("AssignOp", "Assign"):
                         l = peel(x["lhs"])
-                        if l.get("k") == "Path" and l["res"].get("name", "").startswith("last_processed"):
+                        if l.get("k") == "Path" and l.get("res", {}).get("hid") in outer_ints:
                             cursors.add(l["res"]["name"])
                 enc_tbl[leaf["variant"]] = (fields, cursors, arm)
     r.count("encode_tags", len(enc_tbl))
@@ -150,7 +217,7 @@ def section_pairing(F):
             r.violate("%s | tag %s" % (pc["path"] if p is None else ec["path"], t), F.loc(pc if p is None else ec),
                       "ComponentSection::%s is %s" % (t, "never recorded by parse_comp" if p is None else "not replayed by encode_comp"))
             continue
-        vecs, cnt, parm = p
+        vecs, cnt, parm, hk = p
         pf = {local_to_field[v] for v, _ in vecs}
         ef, cursors, earm = e
         ok = len(pf) == 1 and pf <= ef and len(ef) == 1
@@ -159,20 +226,32 @@ def section_pairing(F):
             r.violate("%s | %s vectors" % (ec["path"], t), F.loc(ec, earm),
                       "ComponentSection::%s: parse appends to %s but encode replays from %s" % (t, sorted(pf), sorted(ef)))
         has_loop = any(x.get("k") == "Match" and x.get("src") == "ForLoopDesugar" for x in walk(earm["body"]))
-        ok = len(cursors) == 1 if has_loop else len(cursors) == 0
+        ok = len(cursors) == 1 if has_loop else len(cursors) <= 1
         r.ob(ok)
         if not ok:
             r.violate("%s | %s cursor" % (ec["path"], t), F.loc(ec, earm), "encode arm for %s advances cursors %s (expected exactly one)" % (t, sorted(cursors)))
         for c in cursors:
             used_cursors.setdefault(c, []).append(t)
+        # the cursor ends `num` further: `+= 1` once per replayed item, or `+= num` / `= cursor + num` once after the loop
+        if len(cursors) == 1 and has_loop:
+            bad = _cursor_advance(ec, earm, outer_ints, num_hids)
+            r.ob(bad is None, {"tag": t, "cursor advance": "by num" if bad is None else bad[1]})
+            if bad is not None:
+                r.violate("%s | %s cursor" % (ec["path"], t), F.loc(ec, bad[0]),
+                          "encode arm for %s: %s — after this section the cursor does not point past the %s items it replayed, so the next section of the same kind replays the wrong items" % (t, bad[1], t))
         # count recorded equals items appended: `push` ⇒ literal 1, `append(temp)` ⇒ temp.len()
         meths = {m for _, m in vecs}
-        if meths == {"push"}:
+        if cnt is None:
+            if hk is None:
+                r.undecided("parse arm for %s: the count recorded by the callee could not be related to the items appended" % t)
+                continue
+            okc = hk
+        elif meths == {"push"}:
             from vlib.facts import lit_int
             okc = cnt.get("k") == "Lit" and lit_int(cnt["lit"]) == 1
         else:
             okc = cnt.get("k") != "Lit"
-        r.ob(okc, {"tag": t, "count_expr_kind": cnt.get("k"), "append_methods": sorted(meths)})
+        r.ob(okc, {"tag": t, "count_expr_kind": (cnt or {}).get("k"), "append_methods": sorted(meths)})
         if not okc:
             r.violate("%s | %s count" % (pc["path"], t), F.loc(pc, parm), "parse records a count for %s that does not match the number of items appended" % t)
     for c, ts in used_cursors.items():
@@ -181,6 +260,79 @@ def section_pairing(F):
         if not ok:
             r.violate("%s | cursor %s shared" % (ec["path"], c), F.loc(ec), "cursor %s is shared by sections %s" % (c, ts))
     return r
+
+
+def _cursor_advance(fn, arm, cursor_hids, num_hids):
+    """None when every write of the arm's cursor is a recognised advance by `num` in total; otherwise (node, why).
+    Only positive contradictions are reported: a literal step other than 1, a per-item step that is conditional, a
+    whole-run step inside the item loop, an assignment of something other than cursor + num."""
+    from vlib.facts import lit_int, every_iteration
+    lets = {st["pat"]["hid"]: st for st in walk(arm["body"]) if st.get("k") == "Let" and st["pat"].get("k") == "Binding" and "init" in st
+            and "Mut" not in (st["pat"].get("mode") or "")}
+
+    def strip(e):
+        while True:
+            e = peel(e)
+            if e.get("k") == "Cast":
+                e = e["a"]
+                continue
+            if e.get("k") == "Path" and e.get("res", {}).get("hid") in lets:
+                e = lets[e["res"]["hid"]]["init"]
+                continue
+            if e.get("k") == "MethodCall" and e["method"] in ("clone", "into", "try_into", "unwrap") and not e.get("args"):
+                e = e["recv"]
+                continue
+            return e
+
+    def is_num(e):
+        e = strip(e)
+        return e.get("k") == "Path" and e.get("res", {}).get("hid") in num_hids
+
+    def is_cur(e, h):
+        e = strip(e)
+        return e.get("k") == "Path" and e.get("res", {}).get("hid") == h
+
+    loops = [m for m in walk(arm["body"]) if m.get("k") == "Match" and m.get("src") == "ForLoopDesugar"]
+    in_loop = set()
+    for m in loops:
+        in_loop |= {id(x) for x in walk(m["arms"][0]["body"])}
+    for x in walk(arm["body"]):
+        if x.get("k") not in ("AssignOp", "Assign"):
+            continue
+        l = peel(x["lhs"])
+        if not (l.get("k") == "Path" and l.get("res", {}).get("hid") in cursor_hids):
+            continue
+        h = l["res"]["hid"]
+        inside = id(x) in in_loop
+        if x["k"] == "AssignOp":
+            if x["op"] not in ("+=", "+"):
+                return x, "the cursor is updated with `%s`" % x["op"]
+            rhs = strip(x["rhs"])
+            if rhs.get("k") == "Lit":
+                if lit_int(rhs["lit"]) != 1:
+                    return x, "the cursor is stepped by %s per item" % lit_int(rhs["lit"])
+                if not inside:
+                    return x, "the cursor is stepped by one outside the item loop (once per section instead of once per item)"
+                outer = [m for m in loops if id(x) in {id(y) for y in walk(m["arms"][0]["body"])}][0]
+                lp = [y for y in walk(outer["arms"][0]["body"]) if y.get("k") == "Loop"][0]
+                if not every_iteration(lp["body"], x):
+                    return x, "the per-item step of the cursor is skipped on some iterations"
+            elif is_num(rhs):
+                if inside:
+                    return x, "the cursor is advanced by the whole run inside the item loop"
+            # other right-hand sides: not understood, no verdict
+        else:
+            rhs = strip(x["rhs"])
+            if rhs.get("k") == "Binary" and rhs.get("op") == "+":
+                a, b = rhs["a"], rhs["b"]
+                if (is_cur(a, h) and is_num(b)) or (is_cur(b, h) and is_num(a)):
+                    if inside:
+                        return x, "the cursor is advanced by the whole run inside the item loop"
+                    continue
+            if is_num(rhs) or rhs.get("k") == "Lit":
+                return x, "the cursor is overwritten with %s instead of being advanced by the run length" % ("the run length" if is_num(rhs) else "a constant")
+            # other right-hand sides: not understood, no verdict
+    return None
 
 
 # ---------------------------------------------------------------- R-NEST-TRACK / R-REC-DISPATCH
